@@ -46,4 +46,21 @@ func init() {
 			}
 		},
 	}
+	plans["C19"] = &Plan{
+		Level: "exploration",
+		Rule: "decode: seeded number literals (boundary integers of every width +-2, 15-22 and 30-1100 digit mantissas, exponents around +-308/324/400, long zero runs, exact float64/float32 midpoints built with math/big and perturbed in a far digit, subnormal/min-normal/max boundaries, zeros) through 30+ routes per literal (float64/float32/every integer width/json.Number/interface{} under default, UseNumber, UseInt64/',string' fields/integer map keys/ast accessors/Interface/Preorder callbacks) against strconv and encoding/json; " +
+			"format: seeded interesting float64/float32/int64/uint64 through scalar, struct, ',string', map-key and interface{} routes byte-for-byte against encoding/json and parsed back; f32all: float32 bit patterns in blocks of 4096 (every pattern in thorough => exhaustive for float32 formatting and shortest-text decoding; stride 1021 in quick); f64fmt: blocks of random+structured float64. distinct = hash of literal / value bits / first pattern of a block; all are non-trivial",
+		Assumptions: stdAssumptions, MinEvals: 50000, MinEvalsThorough: 1000000,
+		Runs: func(string) []*Run {
+			return []*Run{
+				{Name: "main", Flavor: "plain", NBatch: 16, TimeoutS: n(600, 3000)},
+				{Name: "main-sse", Flavor: "plain", NBatch: n(2, 8), Env: []string{"SONIC_MODE=noavx2"}, TimeoutS: n(600, 3000)},
+				{Name: "main-optdec", Flavor: "plain", NBatch: n(2, 8), Env: []string{"SONIC_USE_OPTDEC=1"}, TimeoutS: n(600, 3000)},
+				{Name: "main-vm", Flavor: "plain", NBatch: n(2, 8), Env: []string{"SONIC_ENCODER_USE_VM=1"}, TimeoutS: n(600, 3000)},
+				{Name: "f32all", Flavor: "plain", Mode: "f32all", NBatch: n(16, 64), TimeoutS: n(600, 3000)},
+				{Name: "f32all-sse", Flavor: "plain", Mode: "f32all", NBatch: n(4, 64), Env: []string{"SONIC_MODE=noavx2"}, TimeoutS: n(600, 3000)},
+				{Name: "f64fmt", Flavor: "plain", Mode: "f64fmt", NBatch: n(8, 32), TimeoutS: n(600, 3000)},
+			}
+		},
+	}
 }
